@@ -1,6 +1,7 @@
 package props
 
 import (
+	"fmt"
 	"sort"
 
 	"verif/mc/bind"
@@ -169,6 +170,169 @@ func (x *codecExplorer) tailFamily(m *bind.Msg) {
 		}
 		if x.maxDepth < 4 {
 			x.maxDepth = 4
+		}
+	}
+}
+
+// The dependency-directed family. The generated decoders treat every element by itself: the case of element X reads
+// X's octets into X and nothing else, so elements commute and need not be explored jointly beyond pairs. The static
+// extraction (bind) reports every hand-written statement in a case and which other elements it mentions; for each
+// such dependency the elements involved are explored *jointly*: every order of presence, every legal length up to
+// minimum+15 (and the maximum, and the out-of-range neighbours), three content patterns each. On a tree whose
+// decoders are all of the generated shape this family is empty.
+
+var codeDeps map[string]map[string][]string
+var codeDepsErr error
+var codeDepsLoaded bool
+
+func loadCodeDeps() map[string]map[string][]string {
+	if !codeDepsLoaded {
+		codeDepsLoaded = true
+		t, err := bind.Extract(repoDir())
+		if err != nil {
+			codeDepsErr = err
+			return nil
+		}
+		codeDeps = map[string]map[string][]string{}
+		for _, m := range t.Msgs {
+			if len(m.Deps) > 0 {
+				codeDeps[m.Name] = m.Deps
+			}
+		}
+	}
+	return codeDeps
+}
+
+func depLens(s *bind.Slot) []int {
+	if s.Half || s.LenSize == 0 {
+		return []int{s.Max}
+	}
+	seen := map[int]bool{}
+	var out []int
+	add := func(v int) {
+		if v >= 0 && v <= typeMax(s) && !seen[v] {
+			seen[v] = true
+			out = append(out, v)
+		}
+	}
+	for l := s.Min; l <= s.Max && l <= s.Min+15; l++ {
+		add(l)
+	}
+	add(s.Max)
+	add(s.Min - 1)
+	add(s.Max + 1)
+	return out
+}
+
+func (x *codecExplorer) depFamily(m *bind.Msg) {
+	deps := loadCodeDeps()[m.Name]
+	if len(deps) == 0 {
+		return
+	}
+	slotIdx := func(name string) int {
+		for i := range m.Slots {
+			if m.Slots[i].Name == name {
+				return i
+			}
+		}
+		return -1
+	}
+	var names []string
+	for k := range deps {
+		names = append(names, k)
+	}
+	sort.Strings(names)
+	type job struct {
+		own   string
+		group []int
+	}
+	var jobs []job
+	for _, own := range names {
+		group := []int{}
+		whole := false
+		for _, n := range append([]string{own}, deps[own]...) {
+			if n == "<message>" {
+				whole = true
+			}
+			if i := slotIdx(n); i >= 0 && m.Slots[i].Optional && len(group) < 3 {
+				group = append(group, i)
+			}
+		}
+		if len(group) >= 2 {
+			jobs = append(jobs, job{own, group})
+		}
+		if whole && len(group) >= 1 {
+			// the helper may look at any element: the element jointly with every other optional element, pairwise
+			for j := range m.Slots {
+				if m.Slots[j].Optional && j != group[0] {
+					jobs = append(jobs, job{own, []int{group[0], j}})
+				}
+			}
+		}
+	}
+	for _, jb := range jobs {
+		own, group := jb.own, jb.group
+		x.c.Note("dependency-directed exploration: " + m.Name + "." + own + " depends on " + fmt.Sprint(deps[own]))
+		// token alphabets
+		alph := make([][]tok, len(group))
+		for gi, si := range group {
+			s := &m.Slots[si]
+			for _, l := range depLens(s) {
+				for _, pat := range []int{1, 0, 2} {
+					alph[gi] = append(alph[gi], tok{Slot: si, L: l, Pat: pat})
+				}
+			}
+			alph[gi] = append(alph[gi], tok{Slot: -9}) // absent
+		}
+		// all orders of the group
+		var orders [][]int
+		var perm func(cur []int, used int)
+		perm = func(cur []int, used int) {
+			if len(cur) == len(group) {
+				orders = append(orders, append([]int{}, cur...))
+				return
+			}
+			for g := range group {
+				if used&(1<<g) == 0 {
+					perm(append(cur, g), used|1<<g)
+				}
+			}
+		}
+		perm(nil, 0)
+		base := renderMandatory(m, -1, tok{})
+		for oi, ord := range orders {
+			for _, t0 := range alph[ord[0]] {
+				if !x.mine() {
+					continue
+				}
+				if !x.c.Begin("depfamily", m.Name, map[string]any{"msg": m.Name, "element": own, "order": oi, "first": t0}) {
+					continue
+				}
+				var rec func(k int, cur []byte)
+				rec = func(k int, cur []byte) {
+					if k == len(ord) {
+						x.states++
+						x.trans++
+						x.run1(m, cur)
+						return
+					}
+					for _, t := range alph[ord[k]] {
+						if k == 0 && t != t0 {
+							continue
+						}
+						if t.Slot == -9 {
+							rec(k+1, cur)
+							continue
+						}
+						rec(k+1, append(append([]byte{}, cur...), renderTok(m, t)...))
+					}
+				}
+				rec(0, base)
+				x.c.Tick()
+			}
+		}
+		if x.maxDepth < len(group) {
+			x.maxDepth = len(group)
 		}
 	}
 }
